@@ -85,6 +85,8 @@ class Mutator:
         if k == "record" and isinstance(datum, dict) and not stop and n["fields"]:
             present = [f for f in n["fields"] if f["name"] in datum]
             w = d.i(4)
+            if under_union and d.p(0.35):
+                w = 1
             if w == 0:
                 req = [f for f in present if "default" not in f]
                 if req:
@@ -202,6 +204,14 @@ class C10(Check):
         yield dict(base, schema=opt, datum={})
         yield dict(base, schema=opt, datum={}, strict=True)
         yield dict(base, schema=opt, datum={"a": None}, strict=True)
+        # a '-type' key naming no branch, on a mapping held by a union (top level, nested, by-name branch)
+        dog = {"type": "record", "name": "zoo.Dog", "fields": [{"name": "legs", "type": "int"}]}
+        cat = {"type": "record", "name": "zoo.Cat", "fields": [{"name": "legs", "type": "int"}, {"name": "lives", "type": "int", "default": 9}]}
+        for re_ in (False, True):
+            yield dict(base, schema=["null", dog, cat], datum={"legs": 4, "-type": "zoo.Bird"}, raise_errors=re_, mutation="wrong-type-hint")
+            yield dict(base, schema=["null", dog, cat], datum={"legs": 4, "-type": "zoo.Cat"}, raise_errors=re_)
+            yield dict(base, schema={"type": "record", "name": "zoo.Pen", "fields": [{"name": "first", "type": dog}, {"name": "pets", "type": {"type": "array", "items": ["zoo.Dog", cat]}}]},
+                       datum={"first": {"legs": 4}, "pets": [{"legs": 4, "-type": "zoo.Cat"}, {"legs": 3, "-type": "Dog"}]}, raise_errors=re_, mutation="wrong-type-hint")
         yield dict(base, schema="int", datum=True)
         yield dict(base, schema="int", datum=2**31)
         yield dict(base, schema=[{"type": "enum", "name": "n.E", "symbols": ["A"]}, "string"], datum=("n.E", "A"))
